@@ -125,4 +125,11 @@ CHECKS = [
              "reading (TERM, application finishing in time), master exit status 0 in time, no surviving process in the master's session, listener "
              "closed, pid file and unix socket file removed.",
      "note": "wall-clock bounds with 4 s slack; the harness owns the phase, not the instruction at which the signal lands; inconclusive cells (server not ready) are counted, not alarmed"},
+    {"id": "C10", "engine": "R",
+     "technique": "enumerated reload histories with seeded timing on real processes under continuous client load (exhaustive cell matrix in thorough, seeded slice in quick); response-reader and /proc oracles",
+     "text": "Worker class x bind x 8 histories of TTIN/TTOU + 1-3 HUPs with the config file rewritten before each HUP (workers, raw_env marker), "
+             "under a tight loop of short requests on fresh connections and a long gated request in flight across the first HUP: no refused "
+             "connect, no cut response, sync answers every accepted connection, the long request is answered by the pid that started it, and after "
+             "quiescence the master's children are exactly the new number, all newer than the last HUP, all reporting the new marker.",
+     "note": "timing is seeded but real; empty responses on non-sync classes are tolerated per the statement; budget overruns are inconclusive"},
 ]
